@@ -80,7 +80,7 @@ prop("C10", [LK.rule_lock_classes, LK.rule_AT1, LK.rule_AT2, LK.rule_AT3, LK.rul
      "AT2 (each balance read-modify-write is one critical section), AT3 (charge and store atomic against an identical concurrent submission), AT4 (a disconnection purges the Responder's index before collecting the trackers confirmed in that block, so a concurrent trigger is either collected or misses the block), AT5 (the purge of outdated users — selection, removal from memory, deletion of the rows — is one critical section of the users lock, so a registration is handled entirely before or entirely after it), LK0/LK1 (no two operations can wait on each other). "
      "NOT decided: equivalence of final states to some sequential order (needs execution).",
      technique="guard-liveness dataflow on MIR (lock sets), lock-order graph with thread-root reachability")
-prop("C11", [LK.rule_lock_classes, LK.rule_LK0, LK.rule_LK1, LK.rule_LK2, PN.rule_PN_tower, IX.rule_IXt, OUT.rule_OUT, LK.rule_AT5, RO.rule_OR2_gatekeeper, RO.rule_OR2_responder],
+prop("C11", [LK.rule_lock_classes, LK.rule_LK0, LK.rule_LK1, LK.rule_LK2, PN.rule_PN_tower, IX.rule_IXt, OUT.rule_OUT, LK.rule_AT5, RO.rule_OR2_gatekeeper, RO.rule_OR2_responder, SQ.rule_SQ4],
      STATIC + "Decided: no re-entrant acquisition (LK0), no lock-order cycle between concurrently runnable threads (LK1), condvar wait discipline (LK2), and every unwrap/expect reachable from an API or chain "
      "thread root classified: request-derived ones validated by the HTTP layer, replayed inserts guarded by an existence test in the same critical section, look-ups justified in the same critical section (PNt, "
      "each labelled with the locks held, i.e. what a panic would poison); index/slice/positional operations and explicit panic!/unreachable! on those paths are discharged by constants, length guards on every path or a closed variant set of the callee (IXt); every successful poll raises the reachability flag and notifies, whoever lowered it (OUT: the only waker of threads parked in the Carrier). NOT decided: absence of panics in general (sqlite I/O), liveness after arbitrary histories.",
@@ -99,7 +99,7 @@ prop("C14", [PL.rule_PL4, PL.rule_PL5, PN.rule_PN_plugin, PL.rule_PL1, PL.rule_P
      "equals the tower id, otherwise SignatureError -> proof persisted before the status flips -> permanent on the retry path (PL4); sends only to reachable towers, status predicate tables (PL5); no reply class panics (PNp), "
      "is left unrecorded (PL1) or wedges the retry loop (PL2); the in-memory status that gates sending is written only by the listed mutators and never rebuilt from a reply (PL7); no index/slice/positional operation or explicit panic on reply-driven paths is undischarged (IXp). NOT decided: 'any reply' for panics inside reqwest/serde.",
      technique="guard facts at call sites + origin equality of verified/recorded values + classified-unwrap table")
-prop("C15", [WT.rule_HT1, PN.rule_PN2, WT.rule_WT4, IX.rule_IXt, LK.rule_CBS, RT.rule_SB, WT.rule_WT2, LK.rule_LK0, LK.rule_LK1],
+prop("C15", [WT.rule_HT1, PN.rule_PN2, WT.rule_WT4, IX.rule_IXt, LK.rule_CBS, RT.rule_SB, WT.rule_WT2, LK.rule_LK0, LK.rule_LK1, OUT.rule_OUT],
      STATIC + "Decided: the tonic codes constructible in the public handlers are all mapped by explicit arms of match_status to the documented error constants, UNEXPECTED_ERROR only on the catch-all; handle_rejection / ApiError "
      "emit only documented codes; four POST routes with their body limits, one shared recover(handle_rejection); empty/size checks precede forwarding (HT1); what the internal service unwraps on request data is validated "
      "by the HTTP handler before the gRPC call (PN2); the HTTP layer, the serde adapters and everything reachable from the handlers contain no undischarged index/slice/byte-offset string operation or explicit panic (IXt); add_appointment cannot be refused after the slots were charged (CBS: the one state change that precedes the last failure point); a refused registration writes nothing to the live record (SB all-or-nothing renewal); each handler refuses exactly the documented field shapes (HT1 field-check table). NOT decided: promptness, 5xx freedom inside warp/tonic, state unchanged after non-200.",
